@@ -183,7 +183,17 @@ def value_class(kind: str, v, build: Optional[Build] = None, type_name: Optional
     if isinstance(v, (str, bytes)):
         return "empty" if len(v) == 0 else "nonempty"
     if isinstance(v, dict):
-        return "empty-msg" if not v else "msg"
+        if not v:
+            return "empty-msg"
+        if build is not None and type_name in build.msgs:
+            mi = build.msgs[type_name]
+            try:
+                if all(mi.field(k).label in ("repeated", "map") or (mi.field(k).label == "singular" and mi.field(k).kind == "message"
+                                                                     and mi.field(k).wkt is None) for k in v):
+                    return "msg-only-nested"  # holds only containers / sub-messages (fillable purely in place)
+            except KeyError:
+                pass
+        return "msg"
     return type(v).__name__
 
 
@@ -466,6 +476,12 @@ class BP:
         """route: ctor | attr.  A present-but-empty plain sub-message is produced with
         Sub().parse(b"") (public API), since Sub() assigned to a field is by design absent."""
         cls = self.b.bp_class(mi.full_name)
+        if route == "inplace":
+            m = cls()
+            self.fill_inplace(m, mi, tree)
+            if _nested and not tree:
+                m = cls().parse(b"")
+            return m
         kw = self.kwargs(mi, tree, route)
         if route == "attr":
             m = cls()
@@ -476,6 +492,29 @@ class BP:
         if _nested and not tree:
             m = cls().parse(b"")
         return m
+
+    def fill_inplace(self, m, mi: MsgInfo, tree: dict) -> None:
+        """route 'inplace': containers and plain sub-messages are filled by mutating the lazily
+        created default object (m.items.append, m.map[k] = v, m.sub.x = ...) - the parent itself
+        is never assigned to for those fields.  Scalars / optional / oneof members are assigned."""
+        names = attr_names(type(m))
+        for fi in mi.fields:
+            if fi.number not in tree:
+                continue
+            v = tree[fi.number]
+            nm = names[fi.number]
+            if fi.label == "repeated":
+                lst = getattr(m, nm)
+                for x in v:
+                    lst.append(self.py_leaf(fi, x, "inplace"))
+            elif fi.label == "map":
+                d = getattr(m, nm)
+                for k, x in v.items():
+                    d[self._py_scalar(fi.map_key.kind, k)] = self.py_leaf(fi.map_value, x, "inplace")
+            elif fi.label == "singular" and fi.kind == "message" and fi.wkt is None and v:
+                self.fill_inplace(getattr(m, nm), self.b.msgs[fi.type_name], v)
+            else:
+                setattr(m, nm, self.py_leaf(fi, v, "inplace"))
 
     # -- normalisation ----------------------------------------------------
     def norm_leaf(self, fi: FieldInfo, v, problems: list, path: str):
